@@ -248,25 +248,31 @@ theorem delimiterLine_skip {bnd s : Bytes} {t : Bool} (h : delimiterLine bnd s =
       | [], h1 => simp [startsWith] at h1
       | [a], h1 => simp [startsWith] at h1
 
-theorem findBoundaryAux_split {bnd s pre rest : Bytes} {b term : Bool}
-    (h : findBoundaryAux bnd s b = some (pre, term, rest)) :
+theorem findBoundaryAux_split {bnd s pre rest : Bytes} {n : Nat} {term : Bool}
+    (h : findBoundaryAux bnd s n = some (pre, term, rest)) :
     s = pre ++ rest ∧ rest ≠ [] ∧ delimiterLine bnd rest = some term := by
-  induction s generalizing pre b with
-  | nil => simp [findBoundaryAux] at h
+  induction s generalizing pre n with
+  | nil => cases n <;> simp [findBoundaryAux] at h
   | cons c r ih =>
-    unfold findBoundaryAux at h
-    split at h
-    · rename_i t ht
-      cases h
-      refine ⟨rfl, by simp, ?_⟩
-      split at ht
-      · exact ht
-      · contradiction
-    · simp only [Option.map_eq_some_iff] at h
+    cases n with
+    | succ n =>
+      unfold findBoundaryAux at h
+      simp only [Option.map_eq_some_iff] at h
       obtain ⟨⟨a, t, b'⟩, hab, heq⟩ := h
       cases heq
       obtain ⟨h1, h2, h3⟩ := ih hab
       exact ⟨by rw [h1]; rfl, h2, h3⟩
+    | zero =>
+      unfold findBoundaryAux at h
+      split at h
+      · rename_i t ht
+        cases h
+        exact ⟨rfl, by simp, ht⟩
+      · simp only [Option.map_eq_some_iff] at h
+        obtain ⟨⟨a, t, b'⟩, hab, heq⟩ := h
+        cases heq
+        obtain ⟨h1, h2, h3⟩ := ih hab
+        exact ⟨by rw [h1]; rfl, h2, h3⟩
 
 theorem strchr_suffix_len {s q : Bytes} {c : UInt8} (h : strchr s c = some q) : q.length ≤ s.length :=
   strchr_length_le h
